@@ -25,6 +25,28 @@ PROPS = {
         "technique": "proof (Lean 4) + correspondence + implementation-side oracle",
         "design_ref": "DESIGN.md §6 C13, Appendix A.3; notes/scope.md",
     },
+    "C14": {
+        "harness": "vh-scope",
+        "level_text": "Kernel-checked theorems about the model of rename/references of a local declaration (edit set = "
+                      "declaration token + reference-index cells): refs_eq_uses (recorded references = the uses Lua scoping "
+                      "binds to the declaration, via C13 find_eq_lua), references_eq_rename, rename_edits_disjoint / "
+                      "rename_edits_sorted (one edit per token, declaration before its uses), "
+                      "rename_preserves_binding_partial (alpha-renaming the declaration and the uses the environment binds "
+                      "to it with a fresh name leaves every resolution unchanged; freshness is necessary). The LS rename and references handlers run in-process at every declaration and use token of "
+                      "generated programs and are compared with the model; independently the oracle checks single-token "
+                      "non-overlapping edits = {decl} + {uses bound by the reference resolver}, references = same set, and "
+                      "apply-with-fresh-name + re-analysis = same resolution.",
+        "level_note": "Trusted: Lean kernel, harness/renderer, the correspondence run as the tie. The identification of "
+                      "'apply the edit positions' with alpha-renaming through the environment is checked by execution on every "
+                      "case (driver op scope.renamed), not proved. Not modelled: references' alias tracing (SemanticDeclLevel::Trace) "
+                      "for `local g = f` (open known finding, references tie skipped on those tokens), rename of globals, "
+                      "members, doc @param tags, cross-file references.",
+        "trusted_base": SCOPE_TB + ["hook emmylua_ls::verif_scope (re-export of rename/references entry points)"],
+        "assumptions": ["the renamed declaration is local (local, parameter, loop variable, local function)",
+                        "the new name does not occur in the program"],
+        "technique": "proof (Lean 4) + correspondence + implementation-side oracle",
+        "design_ref": "DESIGN.md §6 C13/C14; notes/scope.md",
+    },
 }
 
-HOOK_COMMITS = []
+HOOK_COMMITS = ["0b8676c verif hook: emmylua_ls::verif_scope re-exports the in-process rename and references entry points (feature verif)"]
